@@ -28,8 +28,50 @@ def families(tier, seed):
     return out
 
 
+def kernel_fallback(chk):
+    """Bounded native stand-in / companion of the two kernel-arithmetic contracts: the extracted regions run natively."""
+    cache = {}
+
+    def run():
+        if "r" in cache:
+            return cache["r"]
+        from pyvc import native
+        from contracts import c11 as K
+        fails, n = [], 0
+        ds = (0.0, 0.2, 0.3, 0.5, 1.0, 0.127, 3.0)
+        ss = (0.0, 0.05, 0.1, 0.15, 0.3, 0.5, 0.2 / 2 ** 0.5, 2.0)
+        c0, c1 = K.CONTRACTS
+        f0, f1 = native.region_function(c0), native.region_function(c1)
+        for approx in (0, 1, 3, 7):
+            for d in ds:
+                for s_ in ss:
+                    n += 1
+                    status, fl = native.check_call(c0, K.CLASSES, dict(delays=[d, 0.4], spreads=[s_, 0.1], dde_approx=approx), fn=f0)
+                    if status == "violated":
+                        fails.append(dict(site="C11/" + c0["name"], clauses=fl[:2], features=dict(d=d, s=s_, dde_approx=approx),
+                                          input=dict(delays=[d, 0.4], spreads=[s_, 0.1], dde_approx=approx)))
+                    if d > 0:
+                        n += 1
+                        status, fl = native.check_call(c1, K.CLASSES, dict(delay=d, spread=s_, dde_approx=approx), fn=f1)
+                        if status == "violated":
+                            fails.append(dict(site="C11/" + c1["name"], clauses=fl[:2], features=dict(d=d, s=s_, dde_approx=approx),
+                                              input=dict(delay=d, spread=s_, dde_approx=approx)))
+        chk.add_bounded("native-kernel-order-and-rate", n, n,
+                        "the two extracted regions (order / rate of the gamma kernel, scalar edges and Connectivity) run natively "
+                        "on a grid of (delay, spread, dde_approx) incl. zero delay, zero spread, spread > delay, (d/s)^2 near a "
+                        "tie; every contract clause evaluated on the resulting locals; distinct = grid points",
+                        [dict(delay=0.3, spread=0.5, dde_approx=0)])
+        cache["r"] = fails
+        return fails
+    return run
+
+
 def main():
-    chk = Check("C11", "exploration")
+    chk = Check("C11", "other")
+    fb = kernel_fallback(chk)
+    chk.run_contracts("contracts.c11", fallback={"*": fb})
+    for f in fb():
+        chk.report_failure(f)
     _cases = families(chk.tier, chk.seed)
     _results = driver.run_family(
         chk, "run-vs-explicit-gamma-chain", _cases, cases.case_fn, site="C11/run",
@@ -41,7 +83,10 @@ def main():
     driver.run_sequences(chk, "run-vs-explicit-gamma-chain-in-sequence", _cases, _results, cases.case_fn, site="C11/run",
                          limit=20 if chk.tier == "quick" else 120, seed=chk.seed)
     rc = chk.finish(
-        explanation="Bounded: run() of every family member against the explicitly written augmented ODE system integrated "
+        explanation="Deductive: the number of stages and the stage rate of the kernel (scalar edges: the per-edge loop of "
+                    "_add_edge_buffer; Connectivity: the cascade branch of _add_matrix_delay) satisfy n >= 1, rate*d == n, "
+                    "n == max(1, round((d/s)^2)[, dde_approx]) for every input - i.e. mean delay d and agreement of the two forms. "
+                    "Bounded: run() of every family member against the explicitly written augmented ODE system integrated "
                     "with the same fixed-step scheme by the spec. Unit gain and mean delay d follow from the chain definition "
                     "(n stages of rate n/d) that the spec uses; they are not re-derived here.",
         assumptions=["spec_fixed_step (harness) writes the chain of the property statement: n = round((d/s)^2) stages, rate n/d, "
